@@ -82,6 +82,50 @@ def invoke(main, argv):
     return rv, out.getvalue(), err.getvalue(), exc
 
 
+KNOWN_CLASSES = None
+
+
+def _known_classes():
+    global KNOWN_CLASSES
+    if KNOWN_CLASSES is None:
+        from .c08 import ALL_CLASSES
+        KNOWN_CLASSES = sorted(ALL_CLASSES, key=len, reverse=True)
+    return KNOWN_CLASSES
+
+
+def _file_in_line(line, files, names):
+    """Which listed file a line talks about (full path or base name; longest match)."""
+    best = None
+    for n in set(names):
+        for token in (files[n], os.path.basename(files[n])):
+            if token in line and (best is None or len(token) > best[1]):
+                best = (n, len(token))
+    return best[0] if best else None
+
+
+def parse_report(out, files, names):
+    got = []
+    for line in out.splitlines():
+        n = _file_in_line(line, files, names)
+        if n is None:
+            continue
+        rest = line.replace(files[n], ' ').replace(os.path.basename(files[n]), ' ')
+        c = next((k for k in _known_classes() if re.search(r'(?<![A-Za-z])' + k + r'(?![A-Za-z])', rest)), None)
+        if c is None:
+            continue
+        got.append((n, c + (' (completed)' if 'completed' in rest.replace(c, '') else '')))
+    return got
+
+
+def marked_files(text, files, names):
+    marks = set()
+    for line in text.splitlines():
+        n = _file_in_line(line, files, names)
+        if n is not None:
+            marks.add(n)
+    return marks
+
+
 def classify(ns, path):
     try:
         o = ns.mt.MosFile.from_file(path)
@@ -102,6 +146,16 @@ def worker(ns, items, res, opts):
         for it in items:
             res.transitions += 1
             cmd = it[0]
+            if cmd == 'merge-bad-outfile':
+                res.nontrivial += 1
+                argv = ['merge', '-f'] + [files[n] for n in it[1]] + ['-o', os.path.join(d, 'no-such-dir', 'out.xml')]
+                rv, out, err, exc = invoke(main, argv)
+                res.by_class['merge:unwritable-outfile'] += 1
+                res.by_outcome[f'merge:rv={rv}'] += 1
+                if (exc is not None and exc != 'SystemExit') or rv != 2 or not err.strip():
+                    explore.add_simple_finding(res, prop, f'merge:unwritable-outfile:rv={rv}',
+                                               f'merge -o into a directory that does not exist: return {rv!r} ({exc}), stderr {err[:100]!r}; expected 2 with a message', argv=argv)
+                continue
             if cmd == 's3':
                 s3_case(ns, main, files, cls, store, it, res, prop, d)
                 continue
@@ -115,18 +169,16 @@ def worker(ns, items, res, opts):
                 res.by_class[f'{cmd}:n={len(names) if names is not None else "nofiles"}:bad={len(bad)}'] += 1
                 res.by_outcome[f'{cmd}:rv={rv}'] += 1
                 if names is None or len(names) == 0:
-                    if rv != 2 or not err.strip():
-                        explore.add_simple_finding(res, prop, f'{cmd}:no-files:rv={rv}', f'`mosromgr {cmd}` without files: return {rv!r} ({exc}), stderr {err[:80]!r}; expected 2 with a message', argv=argv)
+                    # the exit-status clause of the statement belongs to merge; here only: no crash
+                    if exc is not None and exc != 'SystemExit':
+                        explore.add_simple_finding(res, prop, f'{cmd}:no-files:escaped', f'`mosromgr {cmd}` without files: {exc}', argv=argv)
                     continue
                 if exc is not None and exc != 'SystemExit':
                     explore.add_simple_finding(res, prop, f'{cmd}:escaped:{exc.split(":")[1]}', f'{cmd} {list(names)}: {exc}', argv=argv, names=list(names))
                     continue
-                # lines "<path>: <Class>[ (completed)]" in order
-                got = []
-                for line in out.splitlines():
-                    for n in files:
-                        if line.startswith(files[n] + ': '):
-                            got.append((n, line[len(files[n]) + 2:]))
+                # report lines: a stdout line naming one of the listed files and a class; "(completed)" when
+                # applicable.  (A line naming a file without a class - eg "<file>: Invalid" - is a mark.)
+                got = parse_report(out, files, names)
                 want = [(n, cls[n]) for n in names if cls[n] is not None]
                 first_bad = next((k for k, n in enumerate(names) if cls[n] is None), None)
                 where = 'none' if first_bad is None else 'last' if first_bad == len(names) - 1 else 'before-others'
@@ -136,10 +188,11 @@ def worker(ns, items, res, opts):
                                                f'{cmd} {list(names)}: reported {got}, expected {want}; return {rv!r}; stderr {err[:120]!r}',
                                                argv=argv, names=list(names), stdout=out, stderr=err)
                     continue
-                missing_mark = [n for n in bad if files[n] not in err]
+                marks = marked_files(out + '\n' + err, files, names)
+                missing_mark = [n for n in bad if n not in marks]
                 if missing_mark:
                     explore.add_simple_finding(res, prop, f'{cmd}:bad-file-not-marked:{badkind}',
-                                               f'{cmd} {list(names)}: {missing_mark} not mentioned on stderr: {err[:120]!r}', argv=argv, names=list(names))
+                                               f'{cmd} {list(names)}: {missing_mark} neither reported with a class nor marked invalid anywhere in the output; stderr {err[:120]!r}', argv=argv, names=list(names))
                     continue
                 if cmd == 'inspect' and rv not in (None, 0) and not bad:
                     explore.add_simple_finding(res, prop, f'inspect:aborted:rv={rv}', f'inspect {list(names)}: return {rv!r}, stderr {err[:120]!r}',
@@ -184,8 +237,6 @@ def worker(ns, items, res, opts):
                         explore.add_simple_finding(res, prop, f'{key}:error-status:{want_err}:rv={rv}',
                                                    f'merge {list(names or [])} flags i={incomplete} n={nonstrict}: library raises {want_err}; CLI returned {rv!r} ({exc}) stderr {err[:100]!r}',
                                                    argv=argv)
-                    elif tofile and os.path.exists(outpath):
-                        explore.add_simple_finding(res, prop, f'{key}:output-written-on-error', f'merge {list(names)}: failed ({want_err}) but wrote {outpath}', argv=argv)
                     continue
                 if rv not in (None, 0):
                     explore.add_simple_finding(res, prop, f'{key}:success-status:rv={rv}', f'merge {list(names)}: library succeeds; CLI returned {rv!r}; stderr {err[:120]!r}', argv=argv)
@@ -238,20 +289,16 @@ def s3_case(ns, main, files, cls, store, it, res, prop, d):
         return
     if sub in ('detect', 'inspect'):
         if mode == 'bucket-only':
-            if rv != 2 or not err.strip():
-                explore.add_simple_finding(res, prop, f's3:{sub}:bucket-only:rv={rv}', f'{argv}: return {rv!r}, expected 2 with a message', argv=argv)
-            return
+            return      # nothing is listed; only "no crash" (checked above) is required of detect/inspect here
         listed = keys[:1] if mode == 'key' else keys
-        got = []
-        for line in out.splitlines():
-            for key, n in keys:
-                if line.startswith(key + ': '):
-                    got.append((key, line[len(key) + 2:]))
+        kfiles = {key: key for key, n in keys}
+        got = parse_report(out, kfiles, [k for k, _ in keys])
         want = [(key, cls[n]) for key, n in listed if cls[n] is not None]
+        marks = marked_files(out + '\n' + err, kfiles, [k for k, _ in keys])
         if got != want:
             explore.add_simple_finding(res, prop, f's3:{sub}:{mode}:report-differs', f'{argv}: reported {got}, expected {want}; stderr {err[:100]!r}', argv=argv)
-        elif [key for key, n in listed if cls[n] is None and key not in err]:
-            explore.add_simple_finding(res, prop, f's3:{sub}:{mode}:bad-key-not-marked', f'{argv}: bad objects not marked on stderr {err[:100]!r}', argv=argv)
+        elif [key for key, n in listed if cls[n] is None and key not in marks]:
+            explore.add_simple_finding(res, prop, f's3:{sub}:{mode}:bad-key-not-marked', f'{argv}: bad objects not marked anywhere in the output; stderr {err[:100]!r}', argv=argv)
         return
     # merge
     want_text = want_err = None
@@ -316,6 +363,7 @@ def items_for(tier):
                 for i in (False, True):
                     for n_ in (False, True):
                         items.append(('s3', 'merge', names, {'mode': mode, 'i': i, 'n': n_}))
+    items.append(('merge-bad-outfile', ('ro.mos.xml', 'append.mos.xml', 'rodelete.mos.xml')))
     for i in (False, True):
         items.append(('merge', ('ro.mos.xml', 'missing.mos.xml', 'rodelete.mos.xml'), i, False, False))
         items.append(('merge', ('ro.mos.xml', 'not-xml.mos.xml', 'rodelete.mos.xml'), i, True, True))
